@@ -13,9 +13,16 @@ pub enum Finish {
     FinalizeDrop,
     /// all shapes handed to the consuming `write_shapes`
     WriteShapes,
+    /// the first half (rounded up) through `write_shape`, the rest handed to the consuming `write_shapes`
+    Mixed,
 }
 
-pub const FINISHES: [Finish; 3] = [Finish::Drop, Finish::FinalizeDrop, Finish::WriteShapes];
+pub const FINISHES: [Finish; 4] = [Finish::Drop, Finish::FinalizeDrop, Finish::WriteShapes, Finish::Mixed];
+
+/// number of shapes that go through `write_shape` before `write_shapes` takes the rest (Finish::Mixed)
+pub fn mixed_split(n: usize) -> usize {
+    (n + 1) / 2
+}
 
 pub fn err_str(e: &Error) -> String {
     format!("{:?}", e)
@@ -33,6 +40,13 @@ pub fn write_to_dests<K: Kind>(shapes: &[K], with_shx: bool, fin: Finish) -> Res
         match fin {
             Finish::WriteShapes => {
                 w.write_shapes(shapes.iter()).map_err(|e| format!("write_shapes: {}", err_str(&e)))?;
+            }
+            Finish::Mixed => {
+                let k = mixed_split(shapes.len());
+                for (i, s) in shapes[..k].iter().enumerate() {
+                    w.write_shape(s).map_err(|e| format!("write_shape #{}: {}", i, err_str(&e)))?;
+                }
+                w.write_shapes(shapes[k..].iter()).map_err(|e| format!("write_shapes (after {} write_shape calls): {}", k, err_str(&e)))?;
             }
             _ => {
                 for (i, s) in shapes.iter().enumerate() {
@@ -80,7 +94,8 @@ pub fn write_bytes_hist<K: Kind>(shapes: &[K], with_shx: bool, fin: Finish, mid_
             Some(x) => ShapeWriter::with_shx(shp.clone(), x.clone()),
             None => ShapeWriter::new(shp.clone()),
         };
-        for (i, s) in shapes.iter().enumerate() {
+        let k = if fin == Finish::Mixed { mixed_split(shapes.len()) } else { shapes.len() };
+        for (i, s) in shapes[..k].iter().enumerate() {
             if i >= 1 && rejects & (1 << (i % 32)) != 0 {
                 if offer_foreign::<K>(&mut w).is_ok() {
                     return Err(format!("a shape of another type was accepted before shape #{}", i));
@@ -94,8 +109,33 @@ pub fn write_bytes_hist<K: Kind>(shapes: &[K], with_shx: bool, fin: Finish, mid_
         if fin == Finish::FinalizeDrop {
             w.finalize().map_err(|e| format!("finalize: {}", err_str(&e)))?;
         }
+        if fin == Finish::Mixed {
+            w.write_shapes(shapes[k..].iter()).map_err(|e| format!("write_shapes (after {} write_shape calls): {}", k, err_str(&e)))?;
+        }
     }
     Ok((shp.bytes(), shx.map(|x| x.bytes())))
+}
+
+/// Drive an already constructed writer (any destination type) through the history and drop it: `fin` selects the
+/// route, `finalize()` is also called after shape i whenever bit i (mod 32) of `mid_fins` is set.
+pub fn drive_writer<K: Kind, T: std::io::Write + std::io::Seek>(mut w: ShapeWriter<T>, shapes: &[K], fin: Finish, mid_fins: u32) -> Result<(), String> {
+    let k = match fin {
+        Finish::WriteShapes => 0,
+        Finish::Mixed => mixed_split(shapes.len()),
+        _ => shapes.len(),
+    };
+    for (i, s) in shapes[..k].iter().enumerate() {
+        w.write_shape(s).map_err(|e| format!("write_shape #{}: {}", i, err_str(&e)))?;
+        if mid_fins & (1 << (i % 32)) != 0 {
+            w.finalize().map_err(|e| format!("finalize after #{}: {}", i, err_str(&e)))?;
+        }
+    }
+    match fin {
+        Finish::FinalizeDrop => w.finalize().map_err(|e| format!("finalize: {}", err_str(&e)))?,
+        Finish::WriteShapes | Finish::Mixed => w.write_shapes(shapes[k..].iter()).map_err(|e| format!("write_shapes (after {} write_shape calls): {}", k, err_str(&e)))?,
+        Finish::Drop => drop(w),
+    }
+    Ok(())
 }
 
 pub fn write_bytes<K: Kind>(shapes: &[K], with_shx: bool, fin: Finish) -> Result<(Vec<u8>, Option<Vec<u8>>), String> {
